@@ -186,7 +186,46 @@ def sweep_agnostic_round(tier, seed):
       yield dict(sizes=[2, 0, 9], geometries=geo, reg=r, seed=seed + 1)
 
 
+def check_hyp_assign(inp):
+  """HypCluster assigns each client by its average loss over the padded evaluation batches: that loss is the mean over the
+  REAL examples plus the regularizer ONCE, whatever the padding geometry (reference: direct computation on the raw arrays)."""
+  from fedjax.algorithms import hyp_cluster
+  from fedjax.core import optimizers
+
+  def loss1(params, batch, rng):
+    return (params['w'] - batch['x']) ** 2
+  lam = inp['lam']
+  regf = (lambda params: lam * params['w'] ** 2) if lam else None
+  cl_params = [{'w': jnp.asarray(3.0)}, {'w': jnp.asarray(-2.5)}]
+  xs = {b'a': [0.3, 0.2, 0.4, 0.3, 0.3], b'b': [2.9, 3.2, 3.1], b'c': [-2.0, -3.0], b'd': [0.26] * 7}
+  clients = [(cid, cds.ClientDataset({'x': np.asarray(v, np.float32)}), jax.random.PRNGKey(i)) for i, (cid, v) in enumerate(xs.items())]
+  want = {}
+  for cid, v in xs.items():
+    ls = [float(np.mean((float(pp['w']) - np.asarray(v, np.float64)) ** 2) + lam * float(pp['w']) ** 2) for pp in cl_params]
+    if abs(ls[0] - ls[1]) < 1e-3:
+      continue
+    want[cid] = int(np.argmin(ls))
+  for bs, k in inp['geometries']:
+    alg = hyp_cluster.hyp_cluster(loss1, optimizers.sgd(0.1), optimizers.sgd(1.0),
+                                  cds.PaddedBatchHParams(batch_size=bs, num_batch_size_buckets=k),
+                                  cds.ShuffleRepeatBatchHParams(batch_size=2, num_epochs=1, seed=0), regularizer=regf)
+    _, diag = alg.apply(alg.init(cl_params), clients)
+    got = {cid: int(d['cluster_id']) for cid, d in diag.items()}
+    for cid, w in want.items():
+      if got[cid] != w:
+        return (f'hyp_cluster (regularizer {lam} * w^2, padded batches of {bs} / {k} buckets): client {cid} with examples {xs[cid]} '
+                f'is assigned to cluster {got[cid]}; its average loss over the real examples plus the regularizer once is minimal '
+                f'for cluster {w}')
+
+
+def sweep_hyp_assign(tier, seed):
+  geo = [[2, 1], [8, 3]] if tier == 'quick' else [[2, 1], [3, 1], [4, 2], [8, 3]]
+  yield dict(lam=0.0, geometries=geo)
+  yield dict(lam=0.5, geometries=geo)
+
+
 CHECKERS = {'masked': (check_masked, sweep_masked), 'empty_round': (check_empty_round, sweep_empty_round),
+            'hyp_assign': (check_hyp_assign, sweep_hyp_assign),
             'agnostic_round': (check_agnostic_round, sweep_agnostic_round)}
 
 if __name__ == '__main__':
